@@ -481,8 +481,17 @@ func cmdCheck(args []string) {
 		}
 	}
 	for _, o := range violations {
-		path := writeReplay(prop, o, scfg)
+		var rr *replayResult
+		model := ""
+		if o.Result == "sat" {
+			model = modelFor(o, scfg.TmpDir, scfg.TimeoutS)
+			rr = eng.replayScalar(*repo, o, model)
+		}
+		path := writeReplay(prop, o, model, rr)
 		suffix := " no-failing-input-found"
+		if rr != nil && rr.Confirmed {
+			suffix = ""
+		}
 		fmt.Printf("VIOLATION property=%s replay=%s%s\n", prop, path, suffix)
 		fmt.Printf("  obligation %s (%s) %s: %s\n", o.ID, o.Result, o.Pos, o.Desc)
 		exit = 1
@@ -550,20 +559,25 @@ func runDemos(repo string, obls []*Obligation, knownBy map[string]*KnownFinding)
 	return res
 }
 
-func writeReplay(prop string, o *Obligation, scfg SolveCfg) string {
+func writeReplay(prop string, o *Obligation, model string, rr *replayResult) string {
 	dir := filepath.Join(outRoot, "replays", prop)
 	os.MkdirAll(dir, 0o755)
 	path := filepath.Join(dir, sanitize(o.ID)+".json")
-	model := ""
-	if o.Result == "sat" {
-		model = modelFor(o, scfg.TmpDir, scfg.TimeoutS)
-	}
 	r := map[string]interface{}{
 		"property": prop, "obligation": o.ID, "class": o.Class, "function": o.Func, "position": o.Pos, "source_line": o.Src,
 		"description": o.Desc, "solver_result": o.Result, "solver": o.Solver, "solver_output": truncate(o.Output, 4000),
 		"model": truncate(model, 20000), "failing_input": nil,
 		"note":       "no-failing-input-found: the obligation was discharged on the pinned tree and is not discharged on this tree; the solver's model (if any) is over the verifier's heap encoding and was not concretised into a Go input",
 		"query_file": path + ".smt2",
+	}
+	if rr != nil {
+		r["replay"] = rr
+		if rr.Confirmed {
+			r["failing_input"] = rr.Inputs
+			r["note"] = "the solver's counterexample was run against the real function (go test -overlay) and the clause is false on the real result: see replay.go_test and replay.go_test_output"
+		} else if rr.Attempted {
+			r["note"] = "no-failing-input-found: the solver's counterexample was run against the real function and did not violate the clause there (the model lives in the verifier's abstraction); the obligation was discharged on the pinned tree and is not discharged on this tree"
+		}
 	}
 	data, _ := json.MarshalIndent(r, "", " ")
 	os.WriteFile(path, data, 0o644)
